@@ -753,4 +753,132 @@ Proof.
   apply (abs_agreement cm Hw honest Hbyz (abs run) VA i v1 (b_id b1) j v2 (b_id b2)); apply (ci_D _ CIr); auto.
 Qed.
 
+
+(* ================= C04: external validity ================= *)
+(* a proposal a node stored is one it endorsed *)
+Lemma pp_endorsed run : wrun run -> forall j v en, good j -> get_pp (tc_t (nstate j run)) v = Some en -> fE run j v (r_hash (pe_ref en)).
+Proof.
+  induction 1 as [|run i0 e Hr IH Hg0 Hok Ha]; intros j v en Hg Hpp.
+  - rewrite nstate_nil in Hpp. destruct (tstart_own (cfg j) (st_wm j) (st_shut j) H cm (st_fresh j) (st_lead j)) as (_ & _ & _ & _ & _ & _ & _ & _ & _ & PP). cbn zeta in PP.
+    destruct (PP v en Hpp) as (_ & _ & A). unfold fE. rewrite nstate_nil. exact A.
+  - assert (Hr' : wrun (run ++ [(i0, e)])) by (constructor; assumption).
+    destruct (facts_mono run i0 e Hr' Hr Hg0 Hok) as (ME & _ & _).
+    destruct (N.eq_dec j i0) as [->|Hne]; [|rewrite (nstate_snoc_other i0 j e run Hne) in Hpp; apply ME; apply IH; assumption].
+    pose proof (node_step run i0 e Hr Hg0 Hok) as S. rewrite nstate_snoc_same in Hpp.
+    destruct (ss_pp _ _ _ _ S v en Hpp) as [Hold|[(_ & _ & He)|[(r & s & b & wm' & sh' & _ & -> & _ & He)|(nty & ninst & nh & nvw & vs & sg & pp & pps & b & wm' & sh' & _ & -> & _ & He)]]].
+    + apply ME. apply IH; assumption.
+    + unfold fE. rewrite nstate_snoc_same. exact He.
+    + unfold fE. rewrite nstate_snoc_same. exact He.
+    + unfold fE. rewrite nstate_snoc_same. exact He.
+Qed.
+
+(* "some correct member approved or produced the block with hash y" *)
+Definition msg_block (m : msg) : option block :=
+  match m with MPP _ _ b | MVC _ b | MNV _ _ _ _ _ _ _ _ b => b | _ => None end.
+Inductive vouched (run : list gev) (y : N) : Prop :=
+| V_start i : good i -> In (0, y) (E (nstart i)) -> vouched run y
+    (* the first leader's own block (RequestNewBlockProposal in startTerm) *)
+| V_valid pre i m wm' sh' post b : run = pre ++ (i, TMsg m wm' sh') :: post -> good i -> msg_block m = Some b -> b_id b = y ->
+    validProposal i H (Some b) y = true -> vouched run y
+    (* ValidateBlockProposal of correct member i accepted the block *)
+| V_fresh pre i e post v to ty ii hh vs sg pp pps b : run = pre ++ (i, e) :: post -> good i ->
+    In (OSend to (MNV ty ii hh v vs sg pp pps b)) (tc_out (nstate i (pre ++ [(i, e)]))) -> r_hash pp = y ->
+    (forall vt, In vt vs -> v_proof vt = None) -> vouched run y.
+    (* correct leader i proposed it in a NEW_VIEW none of whose votes carries a lock: a fresh block of its own *)
+
+Lemma vouched_mono run g y : vouched run y -> vouched (run ++ [g]) y.
+Proof.
+  intros [i A B|pre i m wm' sh' post b A B C0 D0 F|pre i e post v to ty ii hh vs sg pp pps b A B C0 D0 F].
+  - eapply V_start; eauto.
+  - eapply V_valid with (pre := pre) (post := post ++ [g]); eauto. rewrite A, <- app_assoc. reflexivity.
+  - eapply V_fresh with (pre := pre) (post := post ++ [g]); eauto. rewrite A, <- app_assoc. reflexivity.
+Qed.
+
+Lemma quorum_good_member S : isQ S cm = true -> exists j, In j S /\ good j.
+Proof. intro Q. destruct (quorum_has_honest_member cm Hw honest Hbyz S Q) as (j & A & B & C0). exists j. split; [exact A|apply good_of; assumption]. Qed.
+
+(* a lock carried by a counted vote is backed by the endorsement of a correct member in an earlier view *)
+Lemma lock_backed run c0 v vt p : vote_spec c0 cm H v vt -> v_proof vt = Some p -> proofF run p ->
+  exists j, good j /\ r_view (pf_ppref p) < v /\ fE run j (r_view (pf_ppref p)) (r_hash (pf_ppref p)).
+Proof.
+  intros VS Ep [PF1 PF2]. destruct (vs_proof _ _ _ _ _ VS p Ep) as [_ _ _ [Sv Sh] Hearlier [Lok Lid] Pr _ Qp].
+  destruct (quorum_good_member _ Qp) as (j & Hj & Hg). exists j. split; [exact Hg|]. split; [exact Hearlier|].
+  apply in_app_or in Hj. destruct Hj as [Hj|[<-|[]]].
+  - apply in_map_iff in Hj. destruct Hj as (s & <- & Hs). rewrite <- Sv, <- Sh. apply PF2; [exact Hs|apply (Pr s Hs)|exact Hg].
+  - apply PF1; [exact Lok|exact Hg].
+Qed.
+
+Theorem endorsed_vouched run : wrun run -> forall j v y, good j -> fE run j v y -> vouched run y.
+Proof.
+  induction 1 as [|run i0 e Hr IH Hg0 Hok Hauth]; intros j v y Hg Hf.
+  - unfold fE in Hf. rewrite nstate_nil in Hf.
+    destruct (tstart_own (cfg j) (st_wm j) (st_shut j) H cm (st_fresh j) (st_lead j)) as (_ & _ & _ & _ & _ & _ & _ & _ & V0 & _). cbn zeta in V0. fold (nstart j) in V0.
+    pose proof (V0 v y Hf) as ->. apply (V_start [] y j Hg Hf).
+  - assert (Hr' : wrun (run ++ [(i0, e)])) by (constructor; assumption).
+    destruct (facts_mono run i0 e Hr' Hr Hg0 Hok) as (ME & _ & MV).
+    unfold fE in Hf. destruct (N.eq_dec j i0) as [->|Hne]; [|rewrite (nstate_snoc_other i0 j e run Hne) in Hf; apply vouched_mono; apply (IH j v y Hg Hf)].
+    pose proof (node_step run i0 e Hr Hg0 Hok) as S. rewrite nstate_snoc_same in Hf.
+    destruct (node_inv _ i0 Hr Hg0) as (TI & SI & Hh & Hcm & _).
+    destruct (node_inv _ i0 Hr' Hg0) as (TI' & SI' & Hh' & Hcm' & _). rewrite nstate_snoc_same in *.
+    pose proof (SA_holds _ Hr' i0 Hg0) as SA'.
+    set (x := nstate i0 run) in *. set (x' := tstep (cfg i0) x e) in *.
+    destruct (ss_E _ _ _ _ S v y Hf) as [Hold|[Hvx ORG]]; [apply vouched_mono; apply (IH i0 v y Hg0 Hold)|].
+    (* an endorsement of an earlier view by any correct member is an old fact *)
+    assert (OLDER : forall k u y', good k -> u < v -> fE (run ++ [(i0, e)]) k u y' -> fE run k u y').
+    { intros k u y' Hgk Hu Hk. unfold fE in *. destruct (N.eq_dec k i0) as [->|Hnk]; [|rewrite (nstate_snoc_other i0 k e run Hnk) in Hk; exact Hk].
+      rewrite nstate_snoc_same in Hk. fold x x' in Hk. destruct (ss_E _ _ _ _ S u y' Hk) as [Ho|[Hu' _]]; [exact Ho|lia]. }
+    destruct ORG as [(to & r & s & Hin & Hnot & Hrv & Hrh)|(to & ty & ii & hh & vs & sg & pp & pps & b & Hin & F1 & F2 & F3 & F4 & F5)].
+    + destruct e as [m wm shut|h0 v0 wm shut].
+      2:{ exfalso. apply Hnot. apply (move_nomp (cfg i0) wm shut x h0 v0 (OSend to (MP r s)) eq_refl). exact Hin. }
+      cbn [tstep] in *. subst x'.
+      destruct (prepare_needs_newview (cfg i0) wm shut x m to r s Hin Hnot) as [(nty & ninst & nh & vs & sg & pp & pps & b & -> & Hh2 & NC)|(r' & s' & b & -> & Hv2 & Hh2 & _ & VP)].
+      * destruct NC as [_ _ _ _ VS [_ [_ [_ [Hph _]]]] BL]. rewrite Hcm, Hh in VS. destruct (Hauth _ _ _ eq_refl) as [AV _].
+        destruct BL as [(lv & p & B1 & B2 & B3 & B4 & B5)|(B1 & B2)].
+        -- destruct (VS lv B1) as (_ & _ & VSl). pose proof (auth_vote_F run (cfg i0) H (r_view r) lv Hr (AV lv B1) VSl) as [_ PF].
+           destruct (lock_backed run (cfg i0) (r_view r) lv p VSl B2 (PF p B2)) as (k & Hgk & Hlt & Hk).
+           apply vouched_mono. rewrite <- Hrh, Hh2, B4. apply (IH k _ _ Hgk Hk).
+        -- rewrite <- Hrh, Hh2. destruct b as [bb|]; [|discriminate B2].
+           assert (Hid : b_id bb = r_hash pp) by (unfold validProposal in B2; rewrite !andb_true_iff in B2; destruct B2 as [[_ _] B2]; apply N.eqb_eq; exact B2).
+           cbn [tev_ok msg_height] in Hok. destruct Hok as [Hmh _]. rewrite cfg_me, Hph, Hmh in B2.
+           apply (V_valid _ _ run i0 (MNV nty ninst nh (r_view r) vs sg pp pps (Some bb)) wm shut [] bb); auto.
+      * rewrite <- Hrh, <- Hh2. destruct b as [bb|]; [|discriminate VP].
+        assert (Hid : b_id bb = r_hash r') by (unfold validProposal in VP; rewrite !andb_true_iff in VP; destruct VP as [[_ _] VP]; apply N.eqb_eq; exact VP).
+        rewrite cfg_me in VP. cbn [tev_ok msg_height] in Hok. destruct Hok as [Hmh _]. rewrite Hmh in VP.
+        apply (V_valid _ _ run i0 (MPP r' s' (Some bb)) wm shut [] bb); auto.
+    + destruct F5 as [(vt & p & A & B & C0 & D0)|F5].
+      * destruct (F3 vt A) as (ob & Hst). destruct (si_vc _ _ SI' _ _ _ Hst) as (_ & _ & VS & _). rewrite Hcm', Hh' in VS.
+        assert (VF : voteF (run ++ [(i0, e)]) vt) by (apply (sa_vc _ _ SA' v vt ob); rewrite nstate_snoc_same; exact Hst).
+        destruct VF as [_ PF]. destruct (lock_backed _ (cfg i0) v vt p VS B (PF p B)) as (k & Hgk & Hlt & Hk).
+        apply vouched_mono. rewrite D0. apply (IH k (r_view (pf_ppref p)) (r_hash (pf_ppref p)) Hgk). apply OLDER; assumption.
+      * apply (V_fresh _ _ run i0 e [] v to ty ii hh vs sg pp pps b); auto. rewrite nstate_snoc_same. exact Hin.
+Qed.
+
+(* ---- C04 ---- *)
+Theorem external_validity run i b : wrun run -> good i -> tc_commit (nstate i run) = Some b ->
+  b_height b = H /\
+  (exists v en, get_pp (tc_t (nstate i run)) v = Some en /\ pe_blk en = Some b /\ r_hash (pe_ref en) = b_id b /\
+                r_type (pe_ref en) = T_PREPREPARE /\ s_ok (pe_snd en) = true /\ s_id (pe_snd en) = leaderOf cm v) /\
+  vouched run (b_id b).
+Proof.
+  intros Hr Hg Hc.
+  assert (G : forall run, wrun run -> forall b, tc_commit (nstate i run) = Some b ->
+              exists v en, In (v, b_id b) (D (nstate i run)) /\ get_pp (tc_t (nstate i run)) v = Some en /\ pe_blk en = Some b /\ r_hash (pe_ref en) = b_id b).
+  { clear run b Hr Hc. intros run Hr. induction Hr as [|run i0 e Hr IH Hg0 Hok Ha]; intros b Hc.
+    - rewrite nstate_nil in Hc. unfold nstart in Hc. rewrite tstart_commit in Hc. discriminate.
+    - assert (Hr' : wrun (run ++ [(i0, e)])) by (constructor; assumption).
+      destruct (N.eq_dec i i0) as [->|Hne]; [|rewrite (nstate_snoc_other i0 i e run Hne) in *; apply IH; assumption].
+      destruct (node_inv _ i0 Hr' Hg) as (_ & SI' & Hh' & _). pose proof (node_step run i0 e Hr Hg0 Hok) as S. rewrite nstate_snoc_same in *.
+      assert (DS : dstep (nstate i0 run) (tstep (cfg i0) (nstate i0 run) e)) by (destruct e; cbn [tstep]; [apply thandle_dstep|left; apply move_dneutral]).
+      destruct DS as [[D1 D2]|(b' & v & en & C1 & C2 & C3 & C4)].
+      + rewrite D2 in Hc. destruct (IH b Hc) as (v & en & A & B & C0 & D0). exists v, en. rewrite D1. split; [exact A|]. split; [apply (ss_ppmono _ _ _ _ S); exact B|auto].
+      + rewrite C1 in Hc. inversion Hc; subst b'. exists v, en.
+        destruct (si_pp _ _ SI' v en C3) as [[_ _ _ _ _ _ BC] _]. specialize (BC b C4). unfold commitsTo in BC. apply andb_true_iff in BC. destruct BC as [_ B2]. apply N.eqb_eq in B2.
+        rewrite C2, B2. split; [left; reflexivity|auto]. }
+  destruct (G run Hr b Hc) as (v & en & HD & Hpp & Hb & Hh0).
+  destruct (node_inv run i Hr Hg) as (_ & SI & Hh & Hcm & _).
+  destruct (si_pp _ _ SI v en Hpp) as [[_ PT _ _ PS PL BC] _]. specialize (BC b Hb). unfold commitsTo in BC. apply andb_true_iff in BC. destruct BC as [B1 _]. apply N.eqb_eq in B1.
+  split; [congruence|]. split; [exists v, en; rewrite <- Hcm; auto 10|].
+  rewrite <- Hh0. apply (endorsed_vouched run Hr i v). exact Hg. apply (pp_endorsed run Hr i v en Hg Hpp).
+Qed.
+
 End World.
